@@ -45,7 +45,7 @@ def run(ctx):
     ctx.rule("R03.i", "instance or class is decided by identity (shared with R12.v): no boolean-context use of the namespace's instance -- for an instance that is falsy (defines __len__ / "
                       "__bool__) update() and trigger() would assign on the CLASS, so the instance's watchers are never called", floor=40)
     ctx.rule("R03.j", "who may take entries out of the batch queues: every function that rebinds `_state_watchers` / `_events` or removes from them in place is one of the queue managers "
-                      "(discard_events, trigger, the flush); unwatch and the registration code do not touch what is already queued", floor=3)
+                      "(discard_events, trigger, the flush); unwatch and the registration code do not touch what is already queued", floor=2)
     ctx.rule("R03.k", "every class and every instance has dispatch state of its own: _ClassPrivate.__init__ / _InstancePrivate.__init__ interpreted twice in one interpreter (module-level "
                       "objects shared, as at run time) store no container -- state dict, event queue, watcher queue, stores, tables -- that the other namespace holds too, at any depth", floor=1)
     ctx.rule("R03.r", "precedence is kept as given: Watcher.__new__ interpreted abstractly stores the precedence it is handed (an integer, a fraction, a negative internal one) unchanged and 0 "
@@ -421,7 +421,7 @@ def queue_rewriters(ctx, rule):
                         hit = t.value
             if hit is not None:
                 found.setdefault(f.qualname, (f, st))
-    ctx.require(len(found) >= 3, "fewer than 3 functions rewrite the batch queues (%d): the who-may-rewrite rule lost its instances" % len(found))
+    ctx.require(len(found) >= 2, "fewer than 2 functions rewrite the batch queues (%d): the who-may-rewrite rule lost its instances" % len(found))
     for q, (f, st) in sorted(found.items()):
         if q in QUEUE_REWRITERS:
             ctx.ok(rule, f, st, "queue manager: %s" % QUEUE_REWRITERS[q])
